@@ -19,8 +19,8 @@ type Event struct {
 	Flags  string // openat flags
 	Ret    int64
 	Failed bool
-	Start  int // line number of the call's first line
-	End    int // line number of its completion
+	Start  int    // line number of the call's first line
+	End    int    // line number of its completion
 	Marker string // for writes to the marker file: the text written
 	Off    int64  // pwrite64 offset
 	Len    int64
